@@ -229,7 +229,7 @@ def drive_case(item, progress=None):
                "digest2": "-", "model_pre": pre, "model_post": post,
                "pf": [["-"] for _ in probes], "pv": [["-"] for _ in probes], "msg": "-",
                # history of the caller's model at the two runs: never solved / solved (hidden solver state)
-               "hist": ["solved" if solved else "pristine", "solved"]}
+               "hist": ["solved" if solved else "pristine", "solved"], "nwarm": 0, "wmid": False}
         solved = True
         if outcome == "ValueError":
             run["msg"] = _refusal_class(getattr(_one_run, "last_message", ""))
@@ -248,6 +248,12 @@ def drive_case(item, progress=None):
                         validator = False
                 v = validator or None
             if v is not None:
+                try:    # the warm-up geometry the sampler built (root-cause tag of F66)
+                    w = np.asarray(v.warmup, dtype=float)
+                    run["nwarm"] = int(w.shape[0])
+                    run["wmid"] = bool(w.shape[0] == 3 and np.allclose(w[2], (w[0] + w[1]) / 2.0, rtol=0, atol=1e-9))
+                except Exception:
+                    pass
                 try:
                     run["codes"] = [_code(c) for c in v.validate(vals)]
                 except Exception as e:
@@ -326,7 +332,7 @@ def _crashed(case, tid, pal, r):
     run = {"cfg": cfg, "outcome": "crash:" + str(r["crash"]), "outcome2": "-", "cols": [], "rows": [], "codes": [],
            "digest": "-", "digest2": "-", "model_pre": "-", "model_post": "-",
            "pf": [["-"] for _ in case["probes"]], "pv": [["-"] for _ in case["probes"]], "msg": "-",
-           "hist": ["-", "-"]}
+           "hist": ["-", "-"], "nwarm": 0, "wmid": False}
     return {"tid": tid, "inst": case["inst"], "probes": case["probes"], "runs": [run], "palette": pal["name"]}
 
 
